@@ -9,12 +9,10 @@ package splitcarfetcher
 //@ func min
 //@   mode int
 //@   ensures result == ite(a < b, a, b)
-//@   ensures result <= a && result <= b
 
 //@ func max
 //@   mode int
 //@   ensures result == ite(a > b, a, b)
-//@   ensures result >= a && result >= b
 
 // NewMultiReaderAt: offsets[i] == sizes[0]+...+sizes[i-1] provided no prefix sum overflows int64 (precondition); with
 // non-negative sizes, matching readers and at least one piece the result satisfies ReadAt's precondition validMRA.
